@@ -38,6 +38,7 @@ func (m *Mutex) Lock() {
 	s.yield()
 	Block("mutex", func() bool { return !m.isHeld(s) })
 	m.held, m.owner, m.gen = true, s.cur, s.gen
+	s.holdYield()
 }
 
 func (m *Mutex) TryLock() bool {
@@ -132,6 +133,7 @@ func (m *RWMutex) Lock() {
 	}
 	m.wwaiting--
 	m.wheld, m.writer = true, me
+	s.holdYield()
 }
 
 func (m *RWMutex) TryLock() bool {
@@ -190,6 +192,7 @@ func (m *RWMutex) RLock() {
 		return
 	}
 	m.readers = append(m.readers, me)
+	s.holdYield()
 }
 
 func (m *RWMutex) TryRLock() bool {
